@@ -762,11 +762,14 @@ def replay(path: str) -> int:
         out = []
         for x in defs:
             x["fields"] = [tuple(f) for f in x["fields"]] if x.get("fields") else None
-            res = run_impl([dict(files={"root.yaml": yaml_file(consts=consts, aliases=aliases, structs=structs, msgs=[x])},
+            st = x["kind"] == "struct"
+            res = run_impl([dict(files={"root.yaml": yaml_file(consts=consts, aliases=aliases, structs=structs + ([x] if st else []),
+                                                               msgs=[] if st else [x])},
                                  root="root.yaml", import_coredefs=False, auto_pad=True, validate_alignment=True)])[0]
+            pool = res["structs"] if st else res["messages"]
             out.append(dict(defn=x, ok=res["ok"], exc=res["exc"],
-                            raw=[m["raw"] for m in res["messages"] if m["name"] == x["name"]],
-                            hash=[m["hash"] for m in res["messages"] if m["name"] == x["name"]]))
+                            raw=[m["raw"] for m in pool if m["name"] == x["name"]],
+                            hash=[m["hash"] for m in pool if m["name"] == x["name"]]))
         print(json.dumps(out, indent=1))
     else:
         print(json.dumps(r, indent=1))
